@@ -131,12 +131,16 @@ impl<G> ParGraph<G> {
         assert!(num_lenders > 0, "the number of lenders must be positive");
         let num_nodes = graph.num_nodes();
         let target = num_arcs.div_ceil(num_lenders as u64);
-        let cutpoints: Box<[usize]> = std::iter::once(0)
+        let mut cutpoints: Vec<usize> = std::iter::once(0)
             .chain(FairChunks::new_with(target, dcf, num_nodes, num_arcs).map(|r| r.end))
             .collect();
+        // A graph without arcs yields no chunks: use a single part
+        if cutpoints.len() == 1 {
+            cutpoints.push(num_nodes);
+        }
         Self {
             graph,
-            splitting: Splitting::Cutpoints(cutpoints),
+            splitting: Splitting::Cutpoints(cutpoints.into_boxed_slice()),
         }
     }
 }
